@@ -270,3 +270,391 @@ Proof.
   - exact Hn.
   - exists rch. rewrite app_nil_r in Hrun. auto.
 Qed.
+
+(* ================================================================ (b) one ProcessBlock step, with its effect on the store *)
+
+From BV Require Import Spec.C18_Spec Proofs.C18_Store.
+
+(* the LIB half of process_tail either leaves the forkdb alone or moves the LIB and purges *)
+Lemma lib_tail_db cfg s3 b evs fi s' evs' r : lib_tail cfg s3 b evs fi = (s', evs', r) ->
+  db s' = db s3 \/ exists libr, db s' = purge_before_lib (move_lib (db s3) libr) (c_kept cfg).
+Proof.
+  unfold lib_tail. intros H.
+  destruct (last_sent s3) as [ls|]; [|inversion H; auto].
+  destruct (has_lib (db s3)); cbn [negb] in H; [|inversion H; auto].
+  destruct (block_in_chain (db s3) (bref ls) (blib ls)) as [libr|]; [|inversion H; auto].
+  destruct (ri libr =? 0); [inversion H; auto|].
+  destruct (has_new_irr_segment (db s3) (c_first cfg) libr) as [[[hn irr0] stalled]|]; [|inversion H; auto].
+  cbv zeta in H.
+  match type of H with context [if ?C then (s3, _, ROk) else _] => destruct C end; [inversion H; auto|].
+  match type of H with context [process_irr_segment cfg ?I ?HD ?S4] =>
+    destruct (process_irr_segment cfg I HD S4) as [[s5 ev5] ok5] eqn:H5 end.
+  apply process_irr_segment_db in H5. cbn [with_db db] in H5.
+  destruct ok5; cbn [negb] in H; [|inversion H; subst; right; eauto].
+  destruct (process_stalled_segment cfg stalled (bref b) s5) as [[s6 ev6] ok6] eqn:H6.
+  apply process_stalled_segment_db in H6. inversion H; subst. right. exists libr. rewrite H6. exact H5.
+Qed.
+
+(* New events push their blocks *)
+Lemma apply_news_inv lib : forall evs S0 S1, Forall (fun e => estep e = SNew) evs ->
+  apply_all lib S0 evs = Some S1 -> S1 = rev (map eblk evs) ++ S0.
+Proof.
+  induction evs as [|e evs IH]; intros S0 S1 Hs H; cbn [apply_all map rev app] in *; [congruence|].
+  inversion Hs as [|? ? He Hs']; subst.
+  destruct (apply_ev lib S0 e) as [S2|] eqn:Ea; [|discriminate].
+  rewrite (IH _ _ Hs' H). unfold apply_ev in Ea. rewrite He in Ea.
+  assert (S2 = eblk e :: S0).
+  { destruct S0 as [|top S0']; [destruct (root_ok lib (eblk e)) | destruct (bparent (eblk e) =? bid top)]; congruence. }
+  subst S2. rewrite <- app_assoc. reflexivity.
+Qed.
+
+Section Lookups.
+  Variable U : list block.
+  Variable r0 : ref.
+  Variable cfg : config.
+
+  Hypothesis Hnofail : c_fail_at cfg = None.
+  Hypothesis Hnew : f_new (c_filter cfg) = true.
+  Hypothesis Hundo : f_undo (c_filter cfg) = true.
+
+  Hypothesis U_id : forall b, In b U -> bid b <> 0 /\ bparent b <> 0 /\ bid b <> bparent b.
+  Hypothesis U_uniq : forall x y, In x U -> In y U -> bid x = bid y -> x = y.
+  Hypothesis U_up : forall x y, In x U -> In y U -> bparent x = bid y -> bnum y < bnum x.
+  Hypothesis L_id : ri r0 <> 0.
+  Hypothesis L_num : forall y, In y U -> bid y = ri r0 -> bnum y = rn r0.
+  Hypothesis L_up : forall x, In x U -> bparent x = ri r0 -> rn r0 < bnum x.
+  Hypothesis L_decl : forall b, In b U -> decl_ok U r0 b.
+
+  Notation Inv := (Inv U r0 cfg).
+  Notation DbInv := (DbInv U r0).
+  Notation in_U := (in_U U).
+  Notation kept := (c_kept cfg).
+
+  (* the block is in the buffer *)
+  Definition st (s : fstate) (x : block) : Prop := In (bid x) (keys (store (db s))).
+
+  Lemma st_entry s x : in_U (store (db s)) -> In x U -> st s x ->
+    exists e, find (bid x) (store (db s)) = Some e /\ eb e = x /\ In e (store (db s)).
+  Proof.
+    intros HU Hx Hs. apply find_is_some_in in Hs as [e He]. exists e. split; [exact He|].
+    split; [apply (stored_is_self U U_uniq _ _ _ HU Hx He) | apply find_some in He; tauto].
+  Qed.
+
+  Lemma st_of_entry s e : In e (store (db s)) -> st s (eb e).
+  Proof. intros He. unfold st. apply (in_map key). exact He. Qed.
+
+  (* the description of a step: StepOut of MovingLibInv.v with its witnesses exposed, and what happened to the store *)
+  Definition StepW (s : fstate) (Fin : list block) (S : cstack) (b : block)
+             (s' : fstate) (evA evI evS : list event) (Fnew : list block) (S' : cstack) : Prop :=
+    apply_all (ri r0) S evA = Some S' /\
+    Inv s' (Fin ++ Fnew) S' /\
+    Forall (fun e => estep e = SUndo \/ estep e = SNew) evA /\
+    (forall e, In e evA -> estep e = SUndo -> In (eblk e) U /\ rn (libref (db s)) < bnum (eblk e)) /\
+    Forall (fun e => estep e = SIrr) evI /\ Forall (fun e => estep e = SStalled) evS /\
+    (if f_irr (c_filter cfg) then map eblk evI = Fnew else evI = []) /\
+    rn (libref (db s)) <= rn (libref (db s')) /\
+    ((Forall (fun x => rn (libref (db s)) < bnum x /\ bnum x <= blib b) Fnew /\ linked (ri (libref (db s))) Fnew) \/
+     (last_sent s = None /\ bid b = ri r0 /\ Fnew = [b] /\ evS = [] /\
+      exists e, evA = [e] /\ estep e = SNew /\ eblk e = b)) /\
+    (Fnew = [] -> evS = [] /\ libref (db s') = libref (db s)) /\
+    (forall e, In e evS -> In (eblk e) U /\ rn (libref (db s)) < bnum (eblk e) <= rn (libref (db s')) /\
+                          ~ In (bid (eblk e)) (map bid S')) /\
+    NoDup (map (fun e => bid (eblk e)) evS) /\
+    (S = [] \/ S' <> []) /\
+    (* the last Undo/New event is the New of the incoming block *)
+    (evA = [] \/ exists pre e, evA = pre ++ [e] /\ estep e = SNew /\ eblk e = b) /\
+    (* the store *)
+    ((s' = s /\ evA = [] /\ Fnew = [] /\ S' = S /\ (st s b \/ dropped s b = true)) \/
+     (dropped s b = false /\ ~ st s b /\ db s' = new_db (db s) b /\ last_sent s' = last_sent s /\
+      evA = [] /\ Fnew = [] /\ S' = S) \/
+     (dropped s b = false /\ ~ st s b /\ db s' = new_db (db s) b /\ last_sent s = None /\ last_sent s' = Some b /\
+      Fnew = [b] /\ S' = [b] /\ bid b = ri r0) \/
+     (dropped s b = false /\ ~ st s b /\ last_sent s' = Some b /\ S' <> [] /\ evA <> [] /\
+      exists s3, keys (store (db s3)) = keys (store (db s)) ++ [bid b] /\ libref (db s3) = libref (db s) /\
+                 DbInv (db s3) /\ (forall x, In x Fnew -> st s3 x) /\
+                 ((db s' = db s3 /\ Fnew = []) \/
+                  (exists libr, db s' = purge_before_lib (move_lib (db s3) libr) kept)))).
+
+  Lemma stepw_quiet s Fin S b : Inv s Fin S -> st s b \/ dropped s b = true ->
+    StepW s Fin S b s [] [] [] [] S.
+  Proof.
+    intros HI Hk. unfold StepW. rewrite app_nil_r.
+    split; [reflexivity|]. split; [exact HI|]. split; [constructor|]. split; [intros e []|].
+    split; [constructor|]. split; [constructor|].
+    split; [destruct (f_irr (c_filter cfg)); reflexivity|]. split; [lia|].
+    split; [left; split; [constructor | exact I]|]. split; [auto|]. split; [intros e []|]. split; [constructor|].
+    split; [destruct S; [left; reflexivity | right; discriminate]|].
+    split; [left; reflexivity|]. left. auto.
+  Qed.
+
+  Lemma not_st_find s b : find (bid b) (store (db s)) = None -> ~ st s b.
+  Proof. intros Hf. apply find_none. exact Hf. Qed.
+
+  (* a stored block without effect on the stream *)
+  Lemma stepw_add s Fin S b : Inv s Fin S -> In b U -> find (bid b) (store (db s)) = None ->
+    dropped s b = false -> incl_first cfg s b = false ->
+    StepW s Fin S b (with_db s (new_db (db s) b)) [] [] [] [] S.
+  Proof.
+    intros HI Hb Hf Hd Hni. unfold StepW. rewrite app_nil_r.
+    split; [reflexivity|]. split; [apply inv_add; assumption|]. split; [constructor|]. split; [intros e []|].
+    split; [constructor|]. split; [constructor|].
+    split; [destruct (f_irr (c_filter cfg)); reflexivity|]. split; [cbn; lia|].
+    split; [left; split; [constructor | exact I]|]. split; [auto|]. split; [intros e []|]. split; [constructor|].
+    split; [destruct S; [left; reflexivity | right; discriminate]|].
+    split; [left; reflexivity|]. right. left.
+    split; [exact Hd|]. split; [apply not_st_find; exact Hf|]. repeat split.
+  Qed.
+
+  (* the inclusive first delivery (step_root of MovingLibInv.v with its witnesses) *)
+  Lemma root_w s Fin S b : Inv s Fin S -> In b U -> dropped s b = false -> incl_first cfg s b = true ->
+    exists s' evA evI evS Fnew S',
+      fk_step cfg s b = (s', evA ++ evI ++ evS, ROk) /\ StepW s Fin S b s' evA evI evS Fnew S'.
+  Proof.
+    intros HI Hb Hd Hinc. pose proof HI as [Hdb Hfin Hflast Hh].
+    unfold incl_first in Hinc. apply andb_true_iff in Hinc as [Hinc Hid]. apply andb_true_iff in Hinc as [Hci Hls].
+    destruct (last_sent s) as [hd|] eqn:Els; [discriminate|]. destruct Hh as (-> & -> & Hall & Hroot).
+    cbn [rev] in Hflast. apply N.eqb_eq in Hid. rewrite Hflast in Hid.
+    specialize (Hroot Hci).
+    assert (Hf : find (bid b) (store (db s)) = None) by (rewrite Hid; exact Hroot).
+    assert (Hk : ~ In (bid b) (keys (store (db s)))) by (apply find_none; exact Hf).
+    destruct (U_id b Hb) as (H1 & H2 & H3).
+    unfold fk_step. destruct (N.eqb_spec (bid b) (bparent b)); [contradiction|].
+    pose proof Hd as Hd0. unfold dropped in Hd. rewrite Els in *. rewrite Hd, Hci, Hflast.
+    replace (bid b =? ri r0) with true by (symmetry; apply N.eqb_eq; exact Hid). cbn [andb].
+    rewrite (add_link_new U U_id _ _ Hb Hf). cbn [fst].
+    pose proof (dbinv_add U r0 _ _ Hdb Hb Hf) as Hdb1.
+    set (s1 := with_db s (new_db (db s) b)).
+    unfold process_initial_inclusive. rewrite Hnew, (call_ok cfg Hnofail). cbv beta iota zeta.
+    set (tiny := mkSeg (bid b) (bnum b) (mkEntry b false)).
+    set (ev := mkEv SNew b (seg_ref tiny) (seg_ref tiny) (cursor_lib s1) None 0 0).
+    set (s1' := mkFS (db (mkFS (db s1) (last_sent s1) (last_lib_seen s1) (ncalls s1 + 1))) (Some b)
+                     (last_lib_seen (mkFS (db s1) (last_sent s1) (last_lib_seen s1) (ncalls s1 + 1)))
+                     (ncalls (mkFS (db s1) (last_sent s1) (last_lib_seen s1) (ncalls s1 + 1)))).
+    destruct (process_irr_segment_ok cfg Hnofail [tiny] tiny [] (bref b) s1' eq_refl)
+      as (s2 & ev2 & Hrun & Hdb2 & Hls2 & Hlls2 & Hm2 & Hs2).
+    rewrite Hrun. cbv beta iota.
+    assert (Hdbs2 : db s2 = new_db (db s) b) by (rewrite Hdb2; reflexivity).
+    assert (Hlast2 : last_sent s2 = Some b) by (rewrite Hls2; reflexivity).
+    exists s2, [ev], ev2, [], [b], [b]. rewrite app_nil_r.
+    split; [reflexivity|]. unfold StepW.
+    split.
+    { cbn [apply_all apply_ev ev estep eblk]. unfold root_ok. rewrite Hid, N.eqb_refl. reflexivity. }
+    split.
+    { constructor; rewrite ?Hdbs2; cbn [new_db libref store app].
+      - exact Hdb1.
+      - constructor; [|constructor]. split; [exact Hb|]. rewrite Hflast, (L_num b Hb Hid). lia.
+      - cbn [rev app]. rewrite Hflast. exact Hid.
+      - rewrite Hlast2. split; [exact Hb|]. exists []. rewrite Hflast, Hid. split; [constructor|].
+        split; [reflexivity | constructor]. }
+    split; [constructor; [right; reflexivity | constructor]|].
+    split; [intros e [<-|[]] He; discriminate|].
+    split; [exact Hs2|]. split; [constructor|].
+    split.
+    { destruct (f_irr (c_filter cfg)); exact Hm2. }
+    split; [rewrite Hdbs2; cbn [new_db libref]; lia|].
+    split.
+    { right. split; [exact Els|]. split; [exact Hid|]. split; [reflexivity|]. split; [reflexivity|].
+      exists ev. auto. }
+    split; [discriminate|]. split; [intros e []|]. split; [constructor|]. split; [left; reflexivity|].
+    split; [right; exists [], ev; auto|].
+    right. right. left. split; [exact Hd0|]. split; [exact Hk|]. split; [exact Hdbs2|]. repeat split; auto.
+  Qed.
+
+  Local Notation wf_of := (di_wf U r0 U_id U_up).
+
+  (* the last New event of a triggering step delivers the incoming block *)
+  Lemma trigger_last (Fin : list block) (C R Uh : list entry) b evU evRN :
+    Forall (fun e => estep e = SUndo) evU -> Forall (fun e => estep e = SNew) evRN ->
+    map eblk evU = map eb (rev Uh) ->
+    apply_all (ri r0) (rev (Fin ++ map eb (C ++ Uh))) (evU ++ evRN)
+      = Some (rev (Fin ++ map eb ((C ++ R) ++ [mkEntry b false]))) ->
+    exists pre e, evRN = pre ++ [e] /\ eblk e = b.
+  Proof.
+    intros HsU HsRN HmU Happ.
+    assert (E1 : rev (Fin ++ map eb (C ++ Uh)) = map eblk evU ++ rev (Fin ++ map eb C)).
+    { rewrite HmU, map_rev, map_app, app_assoc, rev_app_distr. reflexivity. }
+    rewrite E1 in Happ.
+    rewrite (apply_all_app _ _ evU evRN (rev (Fin ++ map eb C))) in Happ by (apply apply_undos; [exact HsU | reflexivity]).
+    apply (apply_news_inv _ _ _ _ HsRN) in Happ.
+    assert (E2 : rev (Fin ++ map eb ((C ++ R) ++ [mkEntry b false])) = rev (map eb (R ++ [mkEntry b false])) ++ rev (Fin ++ map eb C)).
+    { rewrite <- (app_assoc C R), (map_app eb C), app_assoc, rev_app_distr. reflexivity. }
+    rewrite E2 in Happ. apply app_inv_tail in Happ.
+    apply (f_equal (@rev block)) in Happ. rewrite !rev_involutive in Happ.
+    destruct evRN as [|e pre _] using rev_ind.
+    - cbn [map] in Happ. rewrite map_app in Happ. destruct (map eb R); discriminate.
+    - exists pre, e. split; [reflexivity|]. rewrite !map_app in Happ. cbn [map eb] in Happ.
+      apply app_inj_tail in Happ as [_ Hb]. congruence.
+  Qed.
+
+  (* assembling a triggering step from its two halves (step_finish of MovingLibInv.v with its witnesses) *)
+  Lemma finish_w s Fin S b s3 evU evRN S3 :
+    Inv s Fin S -> In b U -> ~ st s b -> dropped s b = false ->
+    apply_all (ri r0) S (evU ++ evRN) = Some S3 -> Inv s3 Fin S3 ->
+    keys (store (db s3)) = keys (store (db s)) ++ [bid b] -> last_sent s3 = Some b ->
+    libref (db s3) = libref (db s) -> bid b <> ri (libref (db s3)) ->
+    Forall (fun e => estep e = SUndo) evU -> Forall (fun e => estep e = SNew) evRN ->
+    (forall e, In e evU -> In (eblk e) U /\ rn (libref (db s)) < bnum (eblk e)) ->
+    S3 <> [] ->
+    (exists pre e, evRN = pre ++ [e] /\ eblk e = b) ->
+    exists s' evI evS Fnew,
+      lib_tail cfg s3 b (evU ++ evRN) None = (s', (evU ++ evRN) ++ evI ++ evS, ROk) /\
+      StepW s Fin S b s' (evU ++ evRN) evI evS Fnew S3.
+  Proof.
+    intros HI Hb Hk Hdr Happ HI3 Hk3 Hls3 Hl3 Hne HsU HsRN HuU HS3 (pre & elast & Hpre & Hlast).
+    destruct (lib_half U r0 cfg Hnofail U_id U_uniq U_up L_id L_num L_up L_decl s3 Fin S3 b (evU ++ evRN) HI3 Hls3 Hb Hne)
+      as (s' & evI & evS & Fnew & Heq & HI' & Hls' & HsI & HsS & HmI & Hmono & HFnew & HFlk & Hnil & Hst & Hnd & Hkeys).
+    (* the new final blocks sit on the chain of s3 *)
+    assert (HFst : forall x, In x Fnew -> st s3 x).
+    { pose proof (i_head _ _ _ _ _ _ HI3) as H3. rewrite Hls3 in H3. destruct H3 as (_ & p3 & Hc3 & HS3e & _).
+      pose proof (i_head _ _ _ _ _ _ HI') as H'. rewrite Hls' in H'. destruct H' as (_ & p' & _ & HS'e & _).
+      rewrite HS3e in HS'e. apply (f_equal (@rev block)) in HS'e. rewrite !rev_involutive, <- app_assoc in HS'e.
+      apply app_inv_head in HS'e. intros x Hx.
+      assert (Hin : In x (map eb p3)) by (rewrite HS'e; apply in_or_app; left; exact Hx).
+      apply in_map_iff in Hin as (e & <- & He). apply st_of_entry. eapply chain_in; eassumption. }
+    assert (Hcases : (db s' = db s3 /\ Fnew = []) \/
+                     (exists libr, db s' = purge_before_lib (move_lib (db s3) libr) kept)).
+    { destruct (lib_tail_db _ _ _ _ _ _ _ _ Heq) as [Hsame | Hp]; [|right; exact Hp].
+      left. split; [exact Hsame|]. destruct Fnew as [|f0 Fn] eqn:EF; [reflexivity|]. exfalso. rewrite <- EF in *.
+      destruct (@exists_last _ Fnew) as (F' & t & Et); [rewrite EF; discriminate|].
+      pose proof (i_fin_last _ _ _ _ _ _ HI') as Hl'. rewrite Et, app_assoc, rev_app_distr in Hl'. cbn [rev app] in Hl'.
+      pose proof (i_fin _ _ _ _ _ _ HI') as Hf'. rewrite Forall_forall in Hf'.
+      assert (HtF : In t Fnew) by (rewrite Et; apply in_or_app; right; left; reflexivity).
+      destruct (Hf' t) as [HtU _]; [apply in_or_app; right; exact HtF|].
+      rewrite Forall_forall in HFnew. destruct (HFnew t HtF) as [Hlo _].
+      rewrite Hsame in Hl'. destruct (di_coh _ _ _ (i_db _ _ _ _ _ _ HI3)) as (_ & Hn & _).
+      specialize (Hn t HtU Hl'). lia. }
+    rewrite Hl3 in *.
+    exists s', evI, evS, Fnew. split; [exact Heq|]. unfold StepW.
+    split; [exact Happ|]. split; [exact HI'|].
+    split.
+    { apply Forall_app. split; (eapply Forall_impl; [|eassumption]); cbn beta; auto. }
+    split.
+    { intros e He Hs. apply in_app_or in He as [He|He]; [apply HuU; exact He|].
+      rewrite Forall_forall in HsRN. rewrite (HsRN e He) in Hs. discriminate. }
+    split; [exact HsI|]. split; [exact HsS|]. split; [exact HmI|]. split; [exact Hmono|].
+    split; [left; split; [exact HFnew | exact HFlk]|].
+    split.
+    { intros Hn. destruct (Hnil Hn) as [-> ->]. auto. }
+    split; [exact Hst|]. split; [exact Hnd|]. split; [right; exact HS3|].
+    split.
+    { right. exists (evU ++ pre), elast. split; [rewrite Hpre, app_assoc; reflexivity|]. split; [|exact Hlast].
+      rewrite Forall_forall in HsRN. apply HsRN. rewrite Hpre. apply in_or_app. right. left. reflexivity. }
+    right. right. right. split; [exact Hdr|]. split; [exact Hk|]. split; [exact Hls'|]. split; [exact HS3|].
+    split; [rewrite Hpre; destruct evU; destruct pre; discriminate|].
+    exists s3. split; [exact Hk3|]. split; [exact Hl3|]. split; [apply (i_db _ _ _ _ _ _ HI3)|].
+    split; [exact HFst | exact Hcases].
+  Qed.
+
+  (* one ProcessBlock call (step_inv of MovingLibInv.v with its witnesses and the effect on the store) *)
+  Lemma step_w s Fin S b : Inv s Fin S -> In b U ->
+    exists s' evA evI evS Fnew S',
+      fk_step cfg s b = (s', evA ++ evI ++ evS, ROk) /\ StepW s Fin S b s' evA evI evS Fnew S'.
+  Proof.
+    intros HI Hb.
+    destruct (dropped s b) eqn:Hd.
+    { rewrite (fk_step_dropped U cfg U_id s b Hb Hd). exists s, [], [], [], [], S. split; [reflexivity|].
+      apply stepw_quiet; auto. }
+    destruct (incl_first cfg s b) eqn:Hni.
+    { apply root_w; assumption. }
+    pose proof HI as [Hdb Hfin Hflast Hh]. pose proof Hdb as [Hnd HU Hcoh Hnum Hextra Hlc].
+    pose proof (wf_of _ Hdb) as Hwf.
+    destruct (find (bid b) (store (db s))) as [e|] eqn:Hf.
+    { rewrite (fk_step_old' U cfg U_id U_uniq s b e HU Hb Hf Hwf Hni). exists s, [], [], [], [], S. split; [reflexivity|].
+      apply stepw_quiet; [exact HI|]. left. apply find_is_some_in. eauto. }
+    (* a new block *)
+    pose proof (inv_add U r0 cfg s Fin S b HI Hb Hf Hni) as HI1.
+    set (s1 := with_db s (new_db (db s) b)) in *.
+    set (en := mkEntry b false).
+    assert (Hk : ~ In (bid b) (keys (store (db s)))) by (apply find_none; exact Hf).
+    assert (Hl1 : libref (db s1) = libref (db s)) by reflexivity.
+    assert (Hk1 : keys (store (db s1)) = keys (store (db s)) ++ [bid b]).
+    { unfold s1. cbn [with_db db new_db store]. apply keys_snoc. }
+    assert (Hsw : exists u r j, sw_of cfg s b = ScssOk u r j).
+    { unfold sw_of. destruct (f_undo (c_filter cfg) && triggers cfg s b); [|eauto].
+      destruct (last_sent s) as [ls|]; [apply scss_total; exact Hwf | eauto]. }
+    destruct Hsw as (undos & redos & junc & Hsw).
+    rewrite (fk_step_new' U r0 cfg U_id s b undos redos junc Hdb Hb Hf Hd Hni Hsw). cbv zeta. fold s1.
+    pose proof HI1 as [Hdb1 _ _ _]. pose proof Hdb1 as [Hnd1 HU1 _ _ _ _].
+    pose proof (wf_of _ Hdb1) as Hwf1.
+    change (new_db (db s) b) with (db s1).
+    destruct (rs_total (db s1) (c_first cfg) Hwf1 (fuel_of (db s1)) (bid b) (bnum b) [] (enough_fuel_of _ _)) as [[longest reach] Hrs].
+    unfold reversible_segment. cbn [bref ri rn]. rewrite Hrs.
+    destruct (negb (triggers cfg s b) || match longest with [] => true | _ => false end) eqn:Hgo.
+    { exists s1, [], [], [], [], S. split; [reflexivity|]. apply stepw_add; assumption. }
+    apply orb_false_iff in Hgo as [Htr Hlong]. apply negb_false_iff in Htr.
+    (* the chain of the new block *)
+    assert (Hfb : find (bid b) (store (db s1)) = Some en).
+    { unfold s1. cbn [with_db db new_db store]. apply (find_snoc_new (store (db s)) en). exact Hk. }
+    assert (Hshape : exists pP, chain (store (db s1)) (bid b) (ri (libref (db s1))) (pP ++ [en]) /\ longest = map seg_of (pP ++ [en])).
+    { destruct reach.
+      - apply rs_sound in Hrs.
+        2:{ intros e' He'. rewrite Hfb in He'. injection He' as <-. reflexivity. }
+        destruct Hrs as (p & Hc & Hp & _). rewrite app_nil_r in Hp.
+        destruct p as [|e' p' _] using rev_ind.
+        + subst longest. discriminate.
+        + destruct (chain_top _ _ _ _ _ Hc) as [Hf' _]. rewrite Hfb in Hf'. injection Hf' as <-.
+          exists p'. auto.
+      - apply (rs_false_nil cfg (db s1) (di_has_lib _ _ _ Hdb1)) in Hrs. subst longest. discriminate. }
+    destruct Hshape as (pP & Hc & ->).
+    destruct (chain_snoc_inv _ _ _ _ _ Hc) as (Hne1 & _ & HcP). cbn [eb en] in HcP.
+    assert (Hnin : ~ In en pP).
+    { pose proof (chain_nodup _ _ _ _ Hwf1 Hc) as Hn. unfold keys in Hn. rewrite map_app in Hn.
+      intros Hin. refine (nodup_app_disj _ _ (key en) Hn _ _); [apply in_map; exact Hin | left; reflexivity]. }
+    assert (HcP0 : chain (store (db s)) (bparent b) (ri (libref (db s))) pP).
+    { apply (chain_restrict (store (db s)) en); assumption. }
+    assert (HS3ne : forall (X : list block) (q : list entry), rev (X ++ map eb (q ++ [en])) <> []).
+    { intros X q. rewrite map_app, app_assoc, rev_app_distr. discriminate. }
+    unfold sw_of in Hsw. rewrite Hundo, Htr in Hsw. cbn [andb] in Hsw.
+    (* the common end of the three triggering cases *)
+    assert (Hend : forall C R Uh j,
+              pP = C ++ R -> Forall (fun e => esent e = true) C -> S = rev (Fin ++ map eb (C ++ Uh)) ->
+              (forall a, In a Uh -> In (eb a) U /\ rn (libref (db s)) < bnum (eb a)) ->
+              exists s' evA evI evS Fnew S',
+                process_tail cfg s1 b (rev Uh) (filter esent R) j (map seg_of (pP ++ [en])) None
+                  = (s', evA ++ evI ++ evS, ROk) /\ StepW s Fin S b s' evA evI evS Fnew S').
+    { intros C R Uh j HP HC HS HUh.
+      destruct (trigger_first U r0 cfg Hnofail Hnew Hundo U_id U_uniq U_up L_id L_num L_up L_decl
+                  s1 Fin S b pP C R Uh j None HI1 Hb Hc HP HC HS) as
+        (s3 & evU & evRN & Hrun & Happ & HI3 & Hk3 & Hls3 & Hlr3 & HmU & HsU & HsRN & _).
+      fold en in Hrun, Happ, HI3.
+      destruct (finish_w s Fin S b s3 evU evRN _ HI Hb Hk Hd Happ HI3) as (s' & evI & evS & Fnew & Heq & HW).
+      - rewrite Hk3. exact Hk1.
+      - exact Hls3.
+      - rewrite Hlr3. exact Hl1.
+      - rewrite Hlr3. exact Hne1.
+      - exact HsU.
+      - exact HsRN.
+      - apply (evs_blocks (fun x => In x U /\ rn (libref (db s)) < bnum x) evU (rev Uh) HmU).
+        intros a Ha. apply HUh. apply in_rev. exact Ha.
+      - apply HS3ne.
+      - apply (trigger_last Fin C R Uh b evU evRN HsU HsRN HmU). rewrite <- HS, <- HP. exact Happ.
+      - exists s', (evU ++ evRN), evI, evS, Fnew, (rev (Fin ++ map eb (pP ++ [en]))).
+        split; [rewrite Hrun; exact Heq | exact HW]. }
+    destruct (last_sent s) as [hd|] eqn:Hls.
+    - destruct Hh as (HhU & pH & HcH & HS & HsH).
+      assert (HpH : forall a, In a pH -> In (eb a) U /\ rn (libref (db s)) < bnum (eb a)).
+      { intros a Ha. split; [apply HU; apply (chain_in _ _ _ _ _ HcH Ha) | apply (di_above U r0 U_id U_up _ Hdb _ _ HcH a Ha)]. }
+      destruct (N.eq_dec (bid hd) (bparent b)) as [Heq|Hneq].
+      + unfold sent_chain_switch_segments in Hsw. rewrite Heq, N.eqb_refl in Hsw. injection Hsw as <- <- <-.
+        rewrite Heq in HcH. pose proof (chain_det _ _ _ _ _ HcH HcP0) as ->.
+        apply (Hend pP [] [] None).
+        * rewrite app_nil_r. reflexivity.
+        * exact HsH.
+        * rewrite app_nil_r. exact HS.
+        * intros a [].
+      + destruct (scss_link (db s) _ (bid hd) (bparent b) pH pP Hwf Hneq HcH HcP0) as (C & R & Uh & j & HP & HH & Hsc).
+        { intros f t e0 Hu He0. exact (tail_disjoint' U r0 cfg U_id U_up L_id (db s) pP (bparent b) Hdb HcP0 f t e0 Hu He0). }
+        rewrite Hsc in Hsw. injection Hsw as <- <- <-.
+        apply (Hend C R Uh j HP).
+        * rewrite HH in HsH. apply Forall_app in HsH. tauto.
+        * rewrite HS, HH. reflexivity.
+        * intros a Ha. apply HpH. rewrite HH. apply in_or_app. right. exact Ha.
+    - injection Hsw as <- <- <-. destruct Hh as (-> & -> & Hall).
+      assert (Hfil : filter esent pP = []).
+      { assert (G : forall x, In x pP -> esent x = false).
+        { intros x Hx. apply Hall. eapply chain_in; [exact HcP0 | exact Hx]. }
+        clear -G. induction pP as [|h t IHt]; cbn [filter]; [reflexivity|].
+        rewrite (G h (or_introl eq_refl)). apply IHt. intros x Hx. apply G. right. exact Hx. }
+      pose proof (Hend [] pP [] None eq_refl (Forall_nil _) eq_refl (fun a (H : In a []) => match H with end)) as Hres.
+      cbn [rev] in Hres. rewrite Hfil in Hres. exact Hres.
+  Qed.
